@@ -177,3 +177,28 @@ impl Cell {
         self.attrs.inverse()
     }
 }
+
+#[cfg(vt100_verif)]
+impl Cell {
+    pub(crate) fn verif_dump(&self, out: &mut String) {
+        use std::fmt::Write as _;
+        if self.len == 0
+            && self.attrs == crate::attrs::Attrs::default()
+            && self.contents.iter().all(|b| *b == 0)
+        {
+            out.push('-');
+            return;
+        }
+        let mut n = CONTENT_BYTES;
+        while n > 0 && self.contents[n - 1] == 0 {
+            n -= 1;
+        }
+        for b in &self.contents[..n] {
+            let _ = write!(out, "{b:02x}");
+        }
+        let flags = u8::from(self.is_wide())
+            + 2 * u8::from(self.is_wide_continuation());
+        let _ = write!(out, "/{}/{}/", self.len & LEN_BITS, flags);
+        self.attrs.verif_dump(out);
+    }
+}
